@@ -423,6 +423,11 @@ SWEEP_SLOTS = ["%sx = int", "x%s = int", "x%sy = int", "a = %s", "a = x%sy", "a 
                "a = {x %s int}", "a = x %s y", "a<t%s> = t", "a = b<%s>", "a = h'0%s'", "a = h\"%s\"", "a %s int"]
 
 
+# (g) slot fills: every string of one or two tokens in the operator / separator position of each construct
+SLOT_TEMPLATES = ["a = [x %s y]", "a = {x %s y}", "a = [%s x]", "a = {x: %s}", "a = (x %s y)", "g = (x %s y)", "a = x %s y",
+                  "a<%s> = x", "a = x<%s>", "a = #6%s(x)", "a = [x, %s]", "a %s x"]
+
+
 def utf8_ok(s):
     try:
         s.encode("utf-8")
@@ -470,6 +475,12 @@ def gen_texts(rng, tier, wide):
     for cp in SWEEP_CPS:
         for slot in SWEEP_SLOTS:
             out.append(("char-sweep", slot % chr(cp)))
+    fills = [(t,) for t in TOKENS] + list(itertools.product(TOKENS, repeat=2))
+    for tpl in SLOT_TEMPLATES:
+        for f in fills:
+            out.append(("slot-fill", tpl % " ".join(f)))
+            if len(f) == 2:
+                out.append(("slot-fill", tpl % "".join(f)))
     for n in CONTROLS:
         out.append(("control-probe", "a = b .%s c" % n))
         out.append(("control-probe", "a = b .%s" % n))
@@ -723,6 +734,7 @@ def run(tier, seed):
         "exhaustive": True,
         "exhaustive_scope": ["every code point of U+0000..U+017F (and %d boundary code points above) in each of %d one-character slots" % (len(SWEEP_CPS) - 0x180, len(SWEEP_SLOTS)),
                              "all strings of at most %d tokens (joined by one blank) over the %d-token alphabet %s" % (3 if tier == "quick" else 4, len(TOKENS), " ".join(TOKENS)),
+                             "every string of one or two of those tokens (joined with and without a blank) in each of %d construct slots (%s)" % (len(SLOT_TEMPLATES), "; ".join(SLOT_TEMPLATES)),
                              "all rule bodies 'a = ' + at most %d such tokens" % (2 if tier == "quick" else 3)],
         "class_histogram": cls,
         "construct_histogram": used, "construct_histogram_exotic": used_x,
